@@ -1457,3 +1457,31 @@ TABLE["C01"] += [
     N("default-expansion-deep-copy", (MW, _ARGS_COPY, "            return ArgumentList(copy.deepcopy(args.list()))")),
     N("default-expansion-list-alias", (MW, "                method.args.list().remove(arg)", "                remaining = method.args.list()\n                remaining.remove(arg)")),
 ]
+
+# an id is allocated while the text is formatted: the text must then be emitted on every path
+_SETTER_APPEND = "            properties.append(setter)\n"
+TABLE["C05"] += [
+    B("setter-allocated-but-appended-conditionally", {"I3"},
+      (MW, _SETTER_APPEND, "            if not propty.ctype.is_const:\n                properties.append(setter)\n")),
+    N("setter-skipped-together-with-its-id",
+      (MW, "            # Setter doesn't need varargin since it needs just one input.\n",
+       "            if propty.ctype.is_const:\n                continue\n            # Setter doesn't need varargin since it needs just one input.\n")),
+]
+TABLE["C16"] += [
+    B("blank-submodule-not-written", {"Y7"},
+      (PW, "        # Wrap the read-in content\n        cc_content = self.wrap_file(content, module_name=module_name)\n",
+       "        if not content.strip():\n            return\n        # Wrap the read-in content\n        cc_content = self.wrap_file(content, module_name=module_name)\n")),
+    B("submodule-written-only-when-changed", {"Y7"},
+      (PW, "        with open(module_name + \".cpp\", \"w\", encoding=\"UTF-8\") as f:\n            f.write(cc_content)\n\n    def wrap(self, sources, main_module_name):",
+       "        if cc_content.strip():\n            with open(module_name + \".cpp\", \"w\", encoding=\"UTF-8\") as f:\n                f.write(cc_content)\n\n    def wrap(self, sources, main_module_name):")),
+    B("submodule-written-under-another-name", {"Y7"},
+      (PW, "        with open(module_name + \".cpp\", \"w\", encoding=\"UTF-8\") as f:\n            f.write(cc_content)\n\n    def wrap(self, sources, main_module_name):",
+       "        with open(source + \".cpp\", \"w\", encoding=\"UTF-8\") as f:\n            f.write(cc_content)\n\n    def wrap(self, sources, main_module_name):")),
+    N("submodule-written-with-write-text",
+      (PW, "        with open(module_name + \".cpp\", \"w\", encoding=\"UTF-8\") as f:\n            f.write(cc_content)\n\n    def wrap(self, sources, main_module_name):",
+       "        Path(module_name + \".cpp\").write_text(cc_content, encoding=\"UTF-8\")\n\n    def wrap(self, sources, main_module_name):")),
+    B("files-parsed-one-by-one-and-spliced", {"Y1"},
+      (MW, "                content += f.read() + \"\\n\"\n\n        # Parse the contents of the interface file\n        parsed_result = parser.Module.parseString(content)\n",
+       "                content = f.read()\n            parsed_file = parser.Module.parseString(content)\n            if parsed_result is None:\n                parsed_result = parsed_file\n            else:\n                parsed_result.content.extend(parsed_file.content)\n"),
+      (MW, "        content = \"\"\n        modules = {}\n", "        parsed_result = None\n        modules = {}\n")),
+]
